@@ -165,3 +165,16 @@ Theorem C09_no_plaintext_factor : forall (H : hashT) (digest_size : N -> nat) (u
   cfg_assign H digest_size utf8 a req st p = cfg_assign H digest_size utf8 a req st p'.
 Proof. exact no_plaintext_factor. Qed.
 Print Assumptions C09_no_plaintext_factor.
+
+(* the concrete UTF-8 encoder of the correspondence stream is injective, so for it the premise disappears *)
+Theorem C09_utf8_injective : forall s t b, utf8_enc s = Some b -> utf8_enc t = Some b -> s = t.
+Proof. exact utf8_enc_inj. Qed.
+Print Assumptions C09_utf8_injective.
+
+Theorem C09_challenge_other_str_fails_utf8 : forall (H : hashT),
+  (forall a x y, H a x = H a y -> x = y) ->
+  forall a salt s t bs bt,
+  utf8_enc s = Some bs -> utf8_enc t = Some bt -> s <> t ->
+  challenge H utf8_enc (stored_of a salt (H a (salt ++ bs))) (PStr t) = Err EValue.
+Proof. exact challenge_other_str_fails_utf8. Qed.
+Print Assumptions C09_challenge_other_str_fails_utf8.
